@@ -1167,7 +1167,9 @@ pub(crate) fn eval_query(ctx: &Context, expr: &Query) -> Result<QueryReply, Quer
                     out.push((category, name));
                 }
             }
-            if let Some((dim, _power)) = val.unit.as_single() {
+            // The base unit itself isn't in the units table. It only
+            // belongs in the list when asking for its first power.
+            if let Some((dim, 1)) = val.unit.as_single() {
                 dim_name = ctx
                     .canonicalize(dim.as_str())
                     .unwrap_or_else(|| dim.to_string());
